@@ -1,7 +1,137 @@
-(* C08 — pipeline placeholder; replaced by the real statements *)
-From Gdsl.Model Require Import Base NodeOps.
-From Gdsl.Proofs Require Import NodeLemmas.
+(* C08 — transpose() searches the edge-reversed graph.
+   Model: coq/model/Search.v. transpose() is the direction DIn (walk ins h u, a stored edge w->u is handed out as
+   Edge(u, w, e)); no transpose is DOut. rev_heap swaps the two adjacency tables. The machines read the heap only
+   through the node table and adj_of h d (HeapSim), so a transposed run on h IS the plain run on rev_heap h — same
+   result, same recorded edges, same closure trace — for every kind {bfs, dfs, pfs-min, pfs-max}, every entry point
+   {search, search_path, search_cycle, search_nodes, search_edges}, every target and every pure callback (CbAgree;
+   mk_cb_agree: the harness's filters/recorders qualify). Without transpose() the result does not depend on `ins`. *)
+From Gdsl.Model Require Import Spec Callback.
+From Gdsl.Proofs Require Import Transpose.
 
-Theorem C08_placeholder_to_nil : forall (E : Type) v, to_ v (@nil (nat * E)) = [].
-Proof. exact to_nil. Qed.
-Print Assumptions C08_placeholder_to_nil.
+(* the machines depend on the heap only through nodes and the adjacency function of the chosen direction: same status, tree, visited set and callback state *)
+Theorem c08_simulation :
+  forall (K V E : Type) (keqb : K -> K -> bool) (CB : Type)
+         (cb : CB -> heap K V E -> edge E -> CB * heap K V E * bool) (vleb : V -> V -> bool) 
+         (d d' : dir) (h h' : heap K V E) (k : kind) (fuel : nat) (c : CB) (root : nat) 
+         (target : option K) (cyc : bool),
+       HeapSim d d' h h' ->
+       CbAgree cb h h' ->
+       obs (fst (run_search keqb cb vleb k d fuel h c root target cyc)) =
+       obs (fst (run_search keqb cb vleb k d' fuel h' c root target cyc)) /\
+       snd (run_search keqb cb vleb k d fuel h c root target cyc) =
+       snd (run_search keqb cb vleb k d' fuel h' c root target cyc).
+Proof. exact run_search_sim. Qed.
+Print Assumptions c08_simulation.
+
+(* DIn on h looks exactly like DOut on the reversed heap (and vice versa) *)
+Theorem c08_transpose_is_reverse :
+  forall (K V E : Type) (h : heap K V E),
+       HeapSim DIn DOut h (rev_heap h) /\ HeapSim DOut DIn h (rev_heap h).
+Proof. exact transpose_is_reverse. Qed.
+Print Assumptions c08_transpose_is_reverse.
+
+(* search_path / search_cycle with transpose() = the same call on the reversed graph *)
+Theorem c08_transposed_search_path :
+  forall (K V E : Type) (keqb : K -> K -> bool) (CB : Type)
+         (cb : CB -> heap K V E -> edge E -> CB * heap K V E * bool) (vleb : V -> V -> bool) 
+         (h : heap K V E) (k : kind) (fuel : nat) (c : CB) (root : nat) (target : option K) 
+         (cyc : bool),
+       CbAgree cb h (rev_heap h) ->
+       snd (search_path keqb cb vleb k DIn fuel h c root target cyc) =
+       snd (search_path keqb cb vleb k DOut fuel (rev_heap h) c root target cyc).
+Proof. exact transposed_search_path. Qed.
+Print Assumptions c08_transposed_search_path.
+
+(* search with transpose() = search on the reversed graph *)
+Theorem c08_transposed_search :
+  forall (K V E : Type) (keqb : K -> K -> bool) (CB : Type)
+         (cb : CB -> heap K V E -> edge E -> CB * heap K V E * bool) (vleb : V -> V -> bool) 
+         (h : heap K V E) (k : kind) (fuel : nat) (c : CB) (root : nat) (target : option K),
+       CbAgree cb h (rev_heap h) ->
+       snd (search_find keqb cb vleb k DIn fuel h c root target) =
+       snd (search_find keqb cb vleb k DOut fuel (rev_heap h) c root target).
+Proof. exact transposed_search_find. Qed.
+Print Assumptions c08_transposed_search.
+
+(* preorder/postorder search_edges with transpose() *)
+Theorem c08_transposed_order_edges :
+  forall (K V E : Type) (keqb : K -> K -> bool) (CB : Type)
+         (cb : CB -> heap K V E -> edge E -> CB * heap K V E * bool) (h : heap K V E) 
+         (post : bool) (fuel : nat) (c : CB) (root : nat),
+       CbAgree cb h (rev_heap h) ->
+       snd (order_edges keqb cb DIn post fuel h c root) =
+       snd (order_edges keqb cb DOut post fuel (rev_heap h) c root).
+Proof. exact transposed_order_edges. Qed.
+Print Assumptions c08_transposed_order_edges.
+
+(* preorder/postorder search_nodes with transpose() *)
+Theorem c08_transposed_order_nodes :
+  forall (K V E : Type) (keqb : K -> K -> bool) (CB : Type)
+         (cb : CB -> heap K V E -> edge E -> CB * heap K V E * bool) (h : heap K V E) 
+         (post : bool) (fuel : nat) (c : CB) (root : nat),
+       CbAgree cb h (rev_heap h) ->
+       snd (order_nodes keqb cb DIn post fuel h c root) =
+       snd (order_nodes keqb cb DOut post fuel (rev_heap h) c root).
+Proof. exact transposed_order_nodes. Qed.
+Print Assumptions c08_transposed_order_nodes.
+
+(* without transpose() no incoming edge is ever followed: the result is a function of nodes and outs alone *)
+Theorem c08_untransposed_ignores_ins :
+  forall (K V E : Type) (keqb : K -> K -> bool) (CB : Type)
+         (cb : CB -> heap K V E -> edge E -> CB * heap K V E * bool) (vleb : V -> V -> bool)
+         (h h' : heap K V E) (k : kind) (fuel : nat) (c : CB) (root : nat) (target : option K) 
+         (cyc : bool),
+       nodes h = nodes h' ->
+       (forall u : nat, outs h u = outs h' u) ->
+       CbAgree cb h h' ->
+       snd (search_path keqb cb vleb k DOut fuel h c root target cyc) =
+       snd (search_path keqb cb vleb k DOut fuel h' c root target cyc).
+Proof. exact untransposed_search_path. Qed.
+Print Assumptions c08_untransposed_ignores_ins.
+
+(* same for search() *)
+Theorem c08_untransposed_search :
+  forall (K V E : Type) (keqb : K -> K -> bool) (CB : Type)
+         (cb : CB -> heap K V E -> edge E -> CB * heap K V E * bool) (vleb : V -> V -> bool)
+         (h h' : heap K V E) (k : kind) (fuel : nat) (c : CB) (root : nat) (target : option K),
+       nodes h = nodes h' ->
+       (forall u : nat, outs h u = outs h' u) ->
+       CbAgree cb h h' ->
+       snd (search_find keqb cb vleb k DOut fuel h c root target) =
+       snd (search_find keqb cb vleb k DOut fuel h' c root target).
+Proof. exact untransposed_search_find. Qed.
+Print Assumptions c08_untransposed_search.
+
+(* orderings depend only on nodes and the chosen adjacency (covers the untransposed orderings) *)
+Theorem c08_order_sim :
+  forall (K V E : Type) (keqb : K -> K -> bool) (CB : Type)
+         (cb : CB -> heap K V E -> edge E -> CB * heap K V E * bool) (d d' : dir) 
+         (h h' : heap K V E) (post : bool) (fuel : nat) (c : CB) (root : nat),
+       HeapSim d d' h h' ->
+       CbAgree cb h h' ->
+       (obs (fst (order_edges keqb cb d post fuel h c root)) =
+        obs (fst (order_edges keqb cb d' post fuel h' c root)) /\
+        snd (order_edges keqb cb d post fuel h c root) = snd (order_edges keqb cb d' post fuel h' c root)) /\
+       obs (fst (order_nodes keqb cb d post fuel h c root)) =
+       obs (fst (order_nodes keqb cb d' post fuel h' c root)) /\
+       snd (order_nodes keqb cb d post fuel h c root) = snd (order_nodes keqb cb d' post fuel h' c root).
+Proof. exact order_sim. Qed.
+Print Assumptions c08_order_sim.
+
+(* the ForEach recorder and the pure Filter callbacks used by the correspondence satisfy the callback hypothesis *)
+Theorem c08_recorder_filter_callbacks_agree :
+  forall (K V E : Type) (step : heap K V E -> op K V E -> heap K V E * outcome E) 
+         (is_filter : bool) (pred : K -> K -> E -> bool) (h h' : heap K V E),
+       nodes h = nodes h' -> CbAgree (mk_cb step is_filter pred []) h h'.
+Proof. exact mk_cb_agree. Qed.
+Print Assumptions c08_recorder_filter_callbacks_agree.
+
+
+Example c08_nonvacuous :
+  let ops : list (op nat nat nat) := [ONew 0 0; ONew 1 0; ONew 2 0; OConnect 0 1 10; OConnect 1 2 11; OConnect 2 2 12] in
+  let h := fst (run_d Nat.eqb ops) in
+  let cb := (fun (c : unit) (h' : heap nat nat nat) (_ : edge nat) => (c, h', true)) in
+  snd (search_path Nat.eqb cb Nat.leb KDfs DIn 100 h tt 2 (Some 0) false) = RPath [(2, 1, 11); (1, 0, 10)] /\
+  snd (search_path Nat.eqb cb Nat.leb KDfs DOut 100 (rev_heap h) tt 2 (Some 0) false) = RPath [(2, 1, 11); (1, 0, 10)] /\
+  snd (search_path Nat.eqb cb Nat.leb KDfs DOut 100 h tt 2 (Some 0) false) = RNone nat.
+Proof. vm_compute. auto. Qed.
